@@ -3,6 +3,7 @@
 import sys
 import csv
 import math
+from fractions import Fraction
 import tomllib
 import logging
 import numpy as np
@@ -59,8 +60,17 @@ def snap_command(input_workload, output_file, ticks_per_second, force=False):
         for row in reader:
             # Modify arrival_seconds if it's set (not empty)
             if row['arrival_seconds'].strip():
-                original = float(row['arrival_seconds'])
-                snapped = math.floor(original * ticks_per_second) / ticks_per_second
+                # exact arithmetic on the decimal text: in floats 0.29 * 100 is
+                # 28.999999999999996, which would move an arrival that already
+                # lies on a boundary down a whole tick (and again on every re-run)
+                original = Fraction(row['arrival_seconds'].strip())
+                ticks = math.floor(original * ticks_per_second)
+                # a boundary without a finite decimal expansion (13/3 s at 3
+                # ticks/s) is written as the nearest float, which may lie a hair
+                # below it; recognise it so that snapping twice = snapping once
+                if (ticks + 1) / ticks_per_second == float(original):
+                    ticks += 1
+                snapped = ticks / ticks_per_second
                 row['arrival_seconds'] = snapped
 
             writer.writerow(row)
